@@ -336,8 +336,10 @@ where
         // First gradient step in leapfrog needs it.
         // A log-density that does not depend on the positions in the autodiff graph (piecewise
         // constant targets such as the uniform density on a box) has no gradient entry: it is zero.
+        // (`mul_scalar(1.0)` changes no value; it makes the log-density the result of a tracked
+        // operation, so that `backward()` also accepts a tensor the target created from host data)
         let grads = pos
-            .grad(&logp_current.backward())
+            .grad(&logp_current.clone().mul_scalar(1.0).backward())
             .unwrap_or_else(|| pos.clone().inner().zeros_like());
         let grad_summands =
             Tensor::<B, 2>::from_inner(grads.mul_scalar(self.step_size * T::from(0.5).unwrap()));
@@ -474,7 +476,7 @@ where
             // Compute gradient at the new positions.
             let logp = self.target.unnorm_logp_batch(pos.clone());
             let grads = pos
-                .grad(&logp.backward())
+                .grad(&logp.clone().mul_scalar(1.0).backward())
                 .unwrap_or_else(|| pos.clone().inner().zeros_like());
             let grad_summands = Tensor::<B, 2>::from_inner(grads.mul_scalar(self.step_size * half));
 
